@@ -58,6 +58,13 @@ def check_case(acc, src, origin):
         fid = classify(src, kinds)
         if fid is None and "text-mismatch" in kinds and kinds <= {"overlap-or-disorder", "text-mismatch", "uncovered-text", "logical-line-not-closed-by-newline"} and _f08a(toks, mism):
             fid = "F08a"
+        if fid is None:
+            # F10c (nested field with its own spec inside a format spec): counterfactual - with the inner spec removed the stream tiles
+            neutral = re.sub(r"\{(\w+):[^{}'\"]*\{\w+\}\}", r"{\1}", src)
+            if neutral != src:
+                o2 = base.guarded(_tok, neutral)
+                if o2.kind == "tree" and not tokcheck.tiling_violations(neutral, o2.value):
+                    fid = "F10c"
         if fid:
             acc.finding(fid, src[:100])
         else:
@@ -90,6 +97,12 @@ def _f08a(toks, mismatched):
     return True
 
 
+MULTILINE_STRINGS = [
+    'x = f"""abc\n{x}"""\n', "x = f'abc\\\n{y}'\n", "x = f'''{a}\n{b}\n'''\n", 'x = f"""{a:\n>10}"""\n', 'x = f"""\n{a}\n  {b}\nend"""\n', "x = '''a\n{b}\n'''\n",
+    'x = f"""a\n\n{x}{y}\n}}{{\n"""\n', "x = rf'''\\\n{z}'''\n", 'x = """\n"""\n', "x = 'a\\\nb\\\nc'\n", 'x = f"{a}\\\n{b}"\n', "x = p'''/a\n/b'''\n", "f'''{\nx\n}'''\n", 'f"""{x:{\ny}}"""\n',
+]
+
+
 def run_shard(shard):
     acc = Acc()
     if "replay" in shard:
@@ -101,6 +114,17 @@ def run_shard(shard):
         for s in gen_xonsh.UNTERMINATED + gen_xonsh.XONSH_STMTS + gen_xonsh.PY_STMTS + gen_py.SEEDS:
             for v in (s, s + "\n", s.replace("\n", "\r\n"), "if a:\n    " + s.replace("\n", "\n    ") + "\n", s.rstrip("\n")):
                 check_case(acc, v, "fixed")
+    elif kind == "fstrings":
+        from . import c10
+
+        for s in c10.FIXED + MULTILINE_STRINGS:
+            check_case(acc, s, "fstring-fixed")
+            check_case(acc, s.replace("\n", "\r\n"), "fstring-fixed")
+        for _ in range(shard["n"]):
+            s = c10.gen_case(rnd)
+            check_case(acc, s, "fstring-product")
+            if rnd.random() < 0.3:
+                check_case(acc, gen_xonsh.char_edits(rnd, s, 1), "fstring-mutant")
     elif kind == "soup":
         for _ in range(shard["n"]):
             check_case(acc, gen_xonsh.soup(rnd), "soup")
@@ -133,6 +157,8 @@ def plan(tier, seed):
     rnd = random.Random(seed)
     q = tier == "quick"
     shards = [{"kind": "fixed", "seed": seed}]
+    for i in range(8 if q else 64):
+        shards.append({"kind": "fstrings", "seed": seed, "idx": i, "n": 800 if q else 4000})
     for i in range(16 if q else 128):
         shards.append({"kind": "soup", "seed": seed, "idx": i, "n": 2500 if q else 6000})
         shards.append({"kind": "mutate", "seed": seed, "idx": i, "n": 2500 if q else 6000})
